@@ -279,6 +279,13 @@ static jv *obs_key(const char *key, jv *call, long r, jv *extra)
     if (key[0] == 'c') return j_mkint(created);
     return a;
   }
+  if (!strcmp(key, "fpoints")) { /* fault points passed during this call: [side, index, kind] */
+    jv *a = j_mkarr();
+    for (int i = log_mark; i < K->nlog; i++) if (K->log[i].kind == LK_OTHER) {
+      jv *t = j_mkarr(); j_push(t, j_mkint(K->log[i].side)); j_push(t, j_mkint(K->log[i].b)); j_push(t, j_mkint(K->log[i].a)); j_push(a, t);
+    }
+    return a;
+  }
   if (!strcmp(key, "cin")) {
     int p = child_of(h);
     jv *a = j_mkarr();
@@ -308,6 +315,14 @@ static jv *obs_key(const char *key, jv *call, long r, jv *extra)
   if (!strcmp(key, "cdisp")) { jv *a = j_mkarr(); for (int s = 1; s <= 31; s++) if (c->disp[s]) { jv *t = j_mkarr(); j_push(t, j_mkint(s)); j_push(t, j_mkint(c->disp[s])); j_push(a, t); } return a; }
   if (!strcmp(key, "ccwd")) return j_mkstr(K->str + c->cwd);
   if (!strcmp(key, "cprog")) return j_mkstr(K->str + c->prog);
+  if (!strcmp(key, "cprogl")) { /* [length, has the form <synthetic cwd> "/" <argv[0]>] for very long working directories */
+    const char *pg = K->str + c->prog, *a0 = c->nargv ? K->str + c->argv : "";
+    size_t L = (size_t) K->cwdlen_override, n = strlen(pg);
+    int ok = L == 1 ? (n == 1 + strlen(a0) && pg[0] == '/' && strcmp(pg + 1, a0) == 0)
+                    : (n == L + 1 + strlen(a0) && pg[L] == '/' && strcmp(pg + L + 1, a0) == 0);
+    for (size_t i = 0; ok && i < L; i++) if (pg[i] != ((i % 200 == 0) ? '/' : (char) ('a' + (i % 23)))) ok = 0;
+    jv *a = j_mkarr(); j_push(a, j_mkint((long) n)); j_push(a, j_mkint(ok)); return a;
+  }
   if (!strcmp(key, "cargv")) return strlist_at(c->argv, c->nargv);
   if (!strcmp(key, "cenv")) return strlist_at(c->env, c->nenv);
   return j_mkstr("?nokey");
@@ -321,6 +336,10 @@ static jv *obs_all(jv *call, long r, jv *extra)
   for (int i = 0; ALLKEYS[i]; i++) j_put(o, ALLKEYS[i], obs_key(ALLKEYS[i], call, r, extra));
   if (extra) for (int i = 0; i < extra->n; i++) j_put(o, extra->k[i], extra->a[i]);
   const char *fn = j_str(call, "fn", "");
+  if (!strcmp(fn, "start")) {
+    static const char *ak[] = { "pmask", "pdisp", "pcwd", "created", "fpoints", NULL };
+    for (int i = 0; ak[i]; i++) j_put(o, ak[i], obs_key(ak[i], call, r, extra));
+  }
   if (!strcmp(fn, "start") && r > 0) {
     static const char *sk[] = { "cw", "cx", "pp", "cnb", "cexec", "cmask", "cdisp", "ccwd", "cprog", "cargv", "cenv", "pmask", "pcwd", "created", NULL };
     for (int i = 0; sk[i]; i++) j_put(o, sk[i], obs_key(sk[i], call, r, extra));
